@@ -22,6 +22,7 @@ LEVEL_TEXT = (
     "table (queue get <- put on that queue; poll <- write to the kill pipe; Condition.wait <- notify on the same condition); the "
     "ordering 'flag set before waker' is checked on every stop path consistent with the state in which the site can block; lock-order "
     "graph over all acquisitions with the locks held at that point; monitor-discipline rule over every untimed wait in the package."
+    " Also: the reader's poll/select waits on the kill pipe's read end and reports readiness of the inotify descriptor (otherwise the waker of the table cannot wake it)."
 )
 
 LINUX_SKIP = ("watchdog.observers.fsevents", "watchdog.observers.fsevents2", "watchdog.observers.kqueue", "watchdog.observers.read_directory_changes", "watchdog.observers.winapi", "watchdog.watchmedo")
